@@ -7,6 +7,7 @@ mod book20;
 mod book19;
 mod floatchk;
 mod native;
+mod narrow;
 mod ops;
 mod scalar;
 mod trace;
@@ -122,6 +123,7 @@ fn main() {
                 "c11" => floatchk::c11(n, seed),
                 "c14" => floatchk::c14(n, seed),
                 "c15" => floatchk::c15(n, seed),
+                w if w.starts_with("nr") => narrow::run(w, n, seed),
                 _ => {
                     eprintln!("unknown native check");
                     std::process::exit(2);
